@@ -2,6 +2,8 @@
 use crate::{Scenario, Tier};
 pub mod c01;
 pub mod c09;
+pub mod c11;
+pub mod c13;
 pub mod c14;
 pub mod c15;
 pub mod c16;
@@ -18,6 +20,8 @@ pub fn all(seed: u64) -> Vec<Scenario> {
     let mut v = vec![];
     v.extend(c01::scenarios(seed));
     v.extend(c09::scenarios(seed));
+    v.extend(c11::scenarios(seed));
+    v.extend(c13::scenarios(seed));
     v.extend(c14::scenarios(seed));
     v.extend(c15::scenarios(seed));
     v.extend(c16::scenarios(seed));
